@@ -181,6 +181,9 @@ def corpus():
         # stored columns modified in place: out-of-sync records are validation errors (AssertionError before the repair)
         {"kind": "validate", "stream": "corpus", "spec": {"line": "1\t2", "names": ["a", "b"], "scheme": None, "ln": 9},
          "reset": True, "vscheme": None, "tamper": [["idx", "a", 1], ["key", "b", "c"]]},
+        # the same record object validated twice: column errors must not pile up (reset_errors=True)
+        {"kind": "validate", "stream": "corpus", "spec": {"line": "1\t2", "names": ["a", "b"], "scheme": None, "ln": 4},
+         "reset": True, "vscheme": ["norestr", ["b", "a"]], "tamper": [], "pre": 1},
         # two stored columns end up with the same key and index: only object identity tells them apart
         {"kind": "validate", "stream": "corpus",
          "spec": {"line": "v0\tv1\t}", "names": ["Hugo_Symbol", "Chromosome", "Start_Position"],
@@ -235,9 +238,9 @@ def generate(rng, n):
             out.append({"kind": "writer", "stream": "header-mode", "hlines": hl, "channel": "fd", "hmode": hm,
                         "specs": [{"line": "1\t2", "names": ["a", "b"], "scheme": None, "ln": None}]})
     for k, c in enumerate(R.typed_special_cases()):
-        if c["shape"]["defect"] == "format-text" or k % 7 == 0:
+        if c["shape"]["defect"] in ("format-text", "cr-text") or k % 7 == 0:
             out.append({"kind": "reader", "stream": "typed-special", "lines": c["lines"], "override": None})
-            if c["shape"]["defect"] == "format-text":
+            if c["shape"]["defect"] in ("format-text", "cr-text"):
                 out.append({"kind": "line", "stream": "typed-special",
                             "spec": {"line": c["lines"][-1], "names": None, "scheme": GDC, "ln": 4}})
     while len(out) < n:
@@ -270,7 +273,7 @@ def generate(rng, n):
                     tamper.append(["idx", nm, rng.choice([None, 0, 1, 7, -1])] if rng.random() < 0.6
                                   else ["key", nm, rng.choice(["moved", names[0]])])
             out.append({"kind": "validate", "stream": stream, "spec": spec, "reset": rng.random() < 0.6, "vscheme": vs,
-                        "tamper": tamper})
+                        "tamper": tamper, "pre": rng.choice([0, 0, 1, 1, 2])})
         elif kind == "reader":
             c = R.gen_reader_case(rng, stream)
             out.append({"kind": "reader", "stream": stream, "lines": c["lines"], "override": c["override"]})
@@ -300,7 +303,7 @@ def _wire(case, m):
     if k == "line":
         return R.wire_from_line(case["spec"], m)
     if k == "validate":
-        return R.wire_validate(case["spec"], m, case["reset"], case["vscheme"], case.get("tamper"))
+        return R.wire_validate(case["spec"], m, case["reset"], case["vscheme"], case.get("tamper"), case.get("pre", 0))
     return R.wire_writer(case["hlines"], m, case["specs"])
 
 
@@ -313,7 +316,7 @@ def _impl(case, m):
     if k == "line":
         return R.impl_from_line(case["spec"], m)
     if k == "validate":
-        return R.impl_validate(case["spec"], m, case["reset"], case["vscheme"], case.get("tamper"))
+        return R.impl_validate(case["spec"], m, case["reset"], case["vscheme"], case.get("tamper"), case.get("pre", 0))
     return R.impl_writer(case["hlines"], m, case["specs"], case.get("channel", "fd"), case.get("hmode"))
 
 
